@@ -59,7 +59,25 @@ class Ctx:
     def leaf(self, name, shape, **kw):
         if self.symbolic:
             return self.eng.leaf(name, shape, **kw)
-        return replay_leaf(self.model, name, shape, **kw)
+        t = replay_leaf(self.model, name, shape, **kw)
+        self._leaf_orig = getattr(self, "_leaf_orig", {})
+        self._leaf_orig[name] = (t, t.detach().clone())
+        return t
+
+    def assert_no_mutation(self, label):
+        """no library operation so far may have changed a caller-owned leaf tensor (storage-level, any view)"""
+        if self.symbolic:
+            seen = getattr(self, "_writes_seen", 0)
+            for w in self.eng.writes[seen:]:
+                self.concrete.append((f"{label}:mutation:{w['leaf']}", f"written in place by {w['site']} at {w['where']} ({w['n_changed']} cells)"))
+            self._writes_seen = len(self.eng.writes)
+        else:
+            for name, (t, orig) in getattr(self, "_leaf_orig", {}).items():
+                same = torch.equal(t.detach(), orig) or bool(((t.detach() == orig) | (torch.isnan(t.detach()) & torch.isnan(orig))).all()) \
+                    if t.dtype.is_floating_point else torch.equal(t.detach(), orig)
+                if not same:
+                    self.replay_failures.append({"label": f"{label}:mutation:{name}", "detail": "leaf tensor changed in place"})
+                    self._leaf_orig[name] = (t, t.detach().clone())
 
     def const(self, data, dtype=torch.float64):
         return torch.tensor(data, dtype=dtype)
@@ -292,6 +310,11 @@ def explore(harness, params, seed=0, timeout_s=10.0, max_paths=64, engine_opts=N
         report["cuts"] += len(eng.cuts)
         report["defined_assumed"] += len(eng.defined)
         report["n_checked_ops"] += eng.n_checked_ops
+        report["inplace_writes"] = report.get("inplace_writes", 0) + eng.n_inplace_writes
+        report["owned_write_checks"] = report.get("owned_write_checks", 0) + eng.n_owned_write_checks
+        report["paths_with_writes"] = report.get("paths_with_writes", 0) + (1 if eng.n_inplace_writes else 0)
+        report["tie_flips"] = report.get("tie_flips", 0) + eng.tie_flips
+        report["illconditioned"] = report.get("illconditioned", 0) + eng.illconditioned
         report["notes"].update(pr.notes)
         report["writes"] += [{k: (str(v) if k == "changed" else v) for k, v in w.items()} for w in eng.writes]
         if pr.status == "mismatch":
